@@ -6,11 +6,12 @@ IDS=${@:-$(ls /verif/seeded)}
 for d in $IDS; do
   D=/verif/seeded/$d
   P=$(python3 -c "import json; print(json.load(open('$D/meta.json'))['property'])")
-  OUT=$(MUTANT_LINES=6 /verif/bin/mutant.sh "$D/patch.diff" "$P" "$TIER" 2>&1); rc=$?
-  python3 - "$D" "$rc" "$P" "$TIER" <<PY
+  T=$(mktemp /tmp/seedtable-XXXXXX)
+  MUTANT_LINES=6 /verif/bin/mutant.sh "$D/patch.diff" "$P" "$TIER" > "$T" 2>&1; rc=$?
+  python3 - "$D" "$rc" "$P" "$TIER" "$T" <<'PY'
 import json,sys,re
-dst,rc,prop,tier=sys.argv[1],int(sys.argv[2]),sys.argv[3],sys.argv[4]
-out="""$OUT"""
+dst,rc,prop,tier,tf=sys.argv[1],int(sys.argv[2]),sys.argv[3],sys.argv[4],sys.argv[5]
+out=open(tf,errors='replace').read()
 m=json.load(open(dst+'/meta.json'))
 v=m.setdefault('verif',{})
 oracles=sorted(set('%s [%s]'%o for o in re.findall(r'oracle=(\S+) sig=(\S+)', out)))
@@ -20,4 +21,5 @@ v['oracles_'+tier]=oracles[:6]
 json.dump(m,open(dst+'/meta.json','w'),indent=1)
 print("%s %s caught=%s exit=%d %s" % (dst.split('/')[-1], tier, rc==1, rc, '; '.join(oracles[:3])))
 PY
+  rm -f "$T"
 done
